@@ -9,6 +9,7 @@ import (
 	"os/exec"
 	"path/filepath"
 	"runtime"
+	"runtime/debug"
 	"sort"
 	"strconv"
 	"strings"
@@ -19,6 +20,7 @@ import (
 // Exit codes: 0 held, 1 violation (with a VIOLATION line), 2 harness trouble.
 
 func main() {
+	debug.SetMaxStack(192 << 20) // a runaway Go recursion dies quickly instead of eating 1 GB
 	installHooks()
 	if len(os.Args) < 2 {
 		fmt.Fprintln(os.Stderr, "usage: starsim check|worker|replay|gen|fingerprint ...")
@@ -71,6 +73,7 @@ type foundViolation struct {
 
 type workerOut struct {
 	From, To     int
+	Next         int
 	Runs         int64
 	Invalid      int64
 	Evals        int64
@@ -109,20 +112,75 @@ func cmdWorker(args []string) int {
 	to := fs.Int("to", 0, "last index (exclusive)")
 	out := fs.String("out", "", "output file")
 	stride := fs.Int("stride", 1, "index stride")
+	skip := fs.String("skip", "", "comma-separated indexes to skip (scenarios that killed an earlier worker)")
+	resume := fs.Bool("resume", false, "continue from the flushed output file")
 	fs.Parse(args)
+	skipSet := map[int]bool{}
+	for _, x := range strings.Split(*skip, ",") {
+		if v, err := strconv.Atoi(x); err == nil {
+			skipSet[v] = true
+		}
+	}
 	p := props[*prop]
 	if p == nil {
 		fmt.Fprintln(os.Stderr, "unknown property", *prop)
 		return 2
 	}
 	start := time.Now()
-	wo := &workerOut{From: *from, To: *to, Counters: map[string]int64{}}
+	wo := &workerOut{From: *from, To: *to, Next: *from, Counters: map[string]int64{}}
 	nontriv := map[uint64]bool{}
 	swsigs := map[uint64]bool{}
 	pairs := map[uint16]bool{}
 	perClass := map[string]int{}
+	if *resume {
+		if b, err := os.ReadFile(*out); err == nil {
+			var prev workerOut
+			if json.Unmarshal(b, &prev) == nil && prev.Counters != nil {
+				*wo = prev
+				for _, k := range wo.NontrivSigs {
+					nontriv[k] = true
+				}
+				for _, k := range wo.SwitchSigs {
+					swsigs[k] = true
+				}
+				for _, k := range wo.Pairs {
+					pairs[k] = true
+				}
+				for _, v := range wo.Violations {
+					perClass[v.Class]++
+				}
+			}
+		}
+	}
+	flush := func() {
+		wo.NontrivSigs, wo.SwitchSigs, wo.Pairs = wo.NontrivSigs[:0], wo.SwitchSigs[:0], wo.Pairs[:0]
+		for k := range nontriv {
+			wo.NontrivSigs = append(wo.NontrivSigs, k)
+		}
+		for k := range swsigs {
+			wo.SwitchSigs = append(wo.SwitchSigs, k)
+		}
+		for k := range pairs {
+			wo.Pairs = append(wo.Pairs, k)
+		}
+		wo.WallS = time.Since(start).Seconds()
+		wo.Whitebox = whiteboxOK
+		b, _ := json.Marshal(wo)
+		os.WriteFile(*out+".tmp", b, 0o644)
+		os.Rename(*out+".tmp", *out)
+	}
 	prog, _ := os.Create(*out + ".progress")
-	for i := *from; i < *to; i += *stride {
+	sinceFlush := 0
+	for i := wo.Next; i < *to; i += *stride {
+		if sinceFlush >= 20 {
+			wo.Next = i
+			flush()
+			sinceFlush = 0
+		}
+		sinceFlush++
+		if skipSet[i] {
+			continue
+		}
 		if prog != nil {
 			prog.WriteAt([]byte(fmt.Sprintf("%-12d", i)), 0)
 		}
@@ -164,25 +222,12 @@ func cmdWorker(args []string) int {
 					}
 				}
 				wo.Violations = append(wo.Violations, foundViolation{sc, cl, d})
+				sinceFlush = 1 << 20 // flush before the next scenario
 			}
 		}
 	}
-	for k := range nontriv {
-		wo.NontrivSigs = append(wo.NontrivSigs, k)
-	}
-	for k := range swsigs {
-		wo.SwitchSigs = append(wo.SwitchSigs, k)
-	}
-	for k := range pairs {
-		wo.Pairs = append(wo.Pairs, k)
-	}
-	wo.WallS = time.Since(start).Seconds()
-	wo.Whitebox = whiteboxOK
-	b, _ := json.Marshal(wo)
-	if err := os.WriteFile(*out, b, 0o644); err != nil {
-		fmt.Fprintln(os.Stderr, err)
-		return 2
-	}
+	wo.Next = *to
+	flush()
 	return 0
 }
 
@@ -363,7 +408,6 @@ func cmdCheck(args []string) int {
 		nw = 1
 	}
 	outs := make([]*workerOut, nw)
-	crashedAt := make([]int, nw)
 	var wg sync.WaitGroup
 	trouble := false
 	var mu sync.Mutex
@@ -371,49 +415,59 @@ func cmdCheck(args []string) int {
 	if *tier == "thorough" {
 		timeout = 6 * time.Hour
 	}
+	crashes := make([][]int, nw)
 	for w := 0; w < nw; w++ {
 		wg.Add(1)
 		go func(w int) {
 			defer wg.Done()
-			crashedAt[w] = -1
 			out := filepath.Join(tmp, fmt.Sprintf("w%d.json", w))
-			cmd := exec.Command(self, "worker", "-prop", p.ID(), "-tier", *tier, "-seed", fmt.Sprint(seed),
-				"-from", fmt.Sprint(w), "-to", fmt.Sprint(total), "-stride", fmt.Sprint(nw), "-out", out)
-			cmd.Env = append(os.Environ(), "GOMAXPROCS=1", "GORACE=halt_on_error=0 exitcode=0 log_path="+filepath.Join(tmp, fmt.Sprintf("race-w%d", w)))
-			var stderr strings.Builder
-			cmd.Stderr = &stderr
-			done := make(chan error, 1)
-			if err := cmd.Start(); err != nil {
-				mu.Lock()
-				trouble = true
-				mu.Unlock()
-				fmt.Fprintln(os.Stderr, "worker start:", err)
-				return
-			}
-			go func() { done <- cmd.Wait() }()
-			select {
-			case err := <-done:
-				if err != nil {
-					// died: find the scenario it was running
-					b, _ := os.ReadFile(out + ".progress")
-					idx, e2 := strconv.Atoi(strings.TrimSpace(string(b)))
-					if e2 == nil {
-						crashedAt[w] = idx
-					}
-					tail := stderr.String()
-					if len(tail) > 1500 {
-						tail = tail[:700] + "\n…\n" + tail[len(tail)-700:]
-					}
-					fmt.Fprintf(os.Stderr, "worker %d died (%v) at scenario %d:\n%s\n", w, err, crashedAt[w], tail)
+			var skips []string
+			for attempt := 0; attempt < 6; attempt++ {
+				args := []string{"worker", "-prop", p.ID(), "-tier", *tier, "-seed", fmt.Sprint(seed),
+					"-from", fmt.Sprint(w), "-to", fmt.Sprint(total), "-stride", fmt.Sprint(nw), "-out", out}
+				if attempt > 0 {
+					args = append(args, "-resume", "-skip", strings.Join(skips, ","))
+				}
+				cmd := exec.Command(self, args...)
+				cmd.Env = append(os.Environ(), "GOMAXPROCS=1", "GORACE=halt_on_error=0 exitcode=0 log_path="+filepath.Join(tmp, fmt.Sprintf("race-w%d", w)))
+				var stderr strings.Builder
+				cmd.Stderr = &tailWriter{sb: &stderr}
+				done := make(chan error, 1)
+				if err := cmd.Start(); err != nil {
+					mu.Lock()
+					trouble = true
+					mu.Unlock()
+					fmt.Fprintln(os.Stderr, "worker start:", err)
 					return
 				}
-			case <-time.After(timeout):
-				cmd.Process.Kill()
-				mu.Lock()
-				trouble = true
-				mu.Unlock()
-				fmt.Fprintf(os.Stderr, "worker %d: watchdog timeout\n", w)
-				return
+				go func() { done <- cmd.Wait() }()
+				var werr error
+				select {
+				case werr = <-done:
+				case <-time.After(timeout):
+					cmd.Process.Kill()
+					mu.Lock()
+					trouble = true
+					mu.Unlock()
+					fmt.Fprintf(os.Stderr, "worker %d: watchdog timeout\n", w)
+					return
+				}
+				if werr == nil {
+					break
+				}
+				// died: the scenario in flight is a candidate violation
+				b, _ := os.ReadFile(out + ".progress")
+				idx, e2 := strconv.Atoi(strings.TrimSpace(string(b)))
+				if e2 != nil {
+					mu.Lock()
+					trouble = true
+					mu.Unlock()
+					fmt.Fprintf(os.Stderr, "worker %d died (%v) before its first scenario:\n%s\n", w, werr, stderr.String())
+					return
+				}
+				fmt.Fprintf(os.Stderr, "worker %d died (%v) at scenario %d: %.300s\n", w, werr, idx, stderr.String())
+				crashes[w] = append(crashes[w], idx)
+				skips = append(skips, fmt.Sprint(idx))
 			}
 			b, err := os.ReadFile(out)
 			if err != nil {
@@ -481,14 +535,20 @@ func cmdCheck(args []string) int {
 	}
 
 	// Crashed workers: the scenario in flight is a candidate violation.
-	for w, idx := range crashedAt {
-		if idx >= 0 {
-			sc := p.Generate(seed, idx, *tier)
-			found = append(found, foundViolation{sc, "crash", fmt.Sprintf("worker %d was killed by a fatal Go error while running this scenario", w)})
-		} else if outs[w] == nil {
+	ncrash := 0
+	for w, idxs := range crashes {
+		for _, idx := range idxs {
+			ncrash++
+			if ncrash <= 3 {
+				sc := p.Generate(seed, idx, *tier)
+				found = append(found, foundViolation{sc, "crash", fmt.Sprintf("worker %d was killed by a fatal Go error while running this scenario", w)})
+			}
+		}
+		if outs[w] == nil && len(idxs) == 0 {
 			trouble = true
 		}
 	}
+	agg.Counters["worker_crashes"] = int64(ncrash)
 
 	// Handle violations: group by class, minimise one per class, confirm in a
 	// fresh process.
@@ -639,6 +699,20 @@ func writeEvidence(p Prop, tier string, seed uint64, agg *workerOut, nontriv, sw
 	os.WriteFile(filepath.Join(verifDir(), "evidence", p.ID()+".json"), b, 0o644)
 }
 
+// tailWriter keeps only the first 2 KiB written to it.
+type tailWriter struct{ sb *strings.Builder }
+
+func (t *tailWriter) Write(b []byte) (int, error) {
+	if t.sb.Len() < 2048 {
+		n := 2048 - t.sb.Len()
+		if n > len(b) {
+			n = len(b)
+		}
+		t.sb.Write(b[:n])
+	}
+	return len(b), nil
+}
+
 // replayInChild runs "starsim replay --classes path" in a fresh process and
 // returns the violation classes it reported.
 func replayInChild(self, path string) (classes []string, crashed bool) {
@@ -725,6 +799,14 @@ func cmdGen(args []string) int {
 	fmt.Println(sc.Source())
 	if *run {
 		res := p.Run(sc)
+		if res.Invalid {
+			w := NewWorld(nil, nil)
+			pre := w.Predeclared()
+			w.addC06Builtins(pre)
+			pre["host_list"], pre["host_dict"] = nil, nil
+			_, err := Compile(sc.D, "m.star", sc.Source(), pre)
+			fmt.Println("static error:", err)
+		}
 		fmt.Printf("invalid=%v evals=%d nontrivial=%v counters=%v\n", res.Invalid, res.Evals, res.Nontrivial, res.Counters)
 		for _, v := range res.Violations {
 			fmt.Printf("  %s: %s\n", v.Class, v.Detail)
